@@ -401,6 +401,39 @@ func cohort(d dec) []dec {
 }
 
 // related operand for binary operations: controlled exponent gap / cancellation / ties
+// shorten keeps the leading digits of a finite value's coefficient (same exponent of the leading digit), so that the
+// value has several encodings
+func (g *G) shorten(x dec) dec {
+	neg, c, e, sp := decode(x)
+	if sp || c.Sign() == 0 {
+		return x
+	}
+	k := 1 + g.pick(30)
+	q := new(big.Int).Quo(c, pow10(k))
+	if q.Sign() == 0 || e+k > 12287 {
+		return x
+	}
+	lo, hi := encodeDec(neg, q, e+k)
+	return dec{lo, hi}
+}
+
+// smallIntDec: a small integer or half-integer (exponents that reach Pow's shortcut paths), in a random encoding
+func (g *G) smallIntDec() dec {
+	n := int64(g.pick(81) - 40)
+	c, e := big.NewInt(n), 0
+	if g.chance(0.25) {
+		c, e = big.NewInt(n*10+5), -1
+	}
+	neg := c.Sign() < 0
+	c.Abs(c)
+	for k := g.pick(6); k > 0 && c.BitLen() < 100; k-- {
+		c.Mul(c, big.NewInt(10))
+		e--
+	}
+	lo, hi := encodeDec(neg, c, e+6176)
+	return dec{lo, hi}
+}
+
 func (g *G) related(x dec) dec {
 	neg, c, e, sp := decode(x)
 	if sp || c.Sign() == 0 {
